@@ -251,6 +251,9 @@ def build(repo):
     t_writer = translate(arm["body"], writer_rules(), log, "CompiledItem::repr[Instruction]")
     t_fix = translate(ffix["body"], fix_rules(), log, "fix_arg_if_needed")
     check_closed(t_writer, "CompiledItem::repr"); check_closed(t_fix, "fix_arg_if_needed")
+    fentry = src.fn(READER, "split_string")
+    t_entry = translate(fentry["body"], [Rule("R9", "string . contains ( $c )", "chars_contain ( string , $c )", why="str::contains(char)")], log, "split_string")
+    check_closed(t_entry, "split_string")
     spec = SPEC
 
     gen = header(log, f"{READER}: split_string_v2; {WRITER}: CompiledItem::repr (Instruction arm), fix_arg_if_needed") + prelude("codec.rs") + spec + f"""
@@ -263,6 +266,18 @@ pub fn split_string_v2(string: &Vec<char>, multi_target: bool) -> (r: Result<Vec
         }}
 {{
 {render(t_reader, 1)}
+}}
+
+//@ OBL C04.reader.entry
+// the entry point the loader and the transpiler call: the multi-target decoder on the text as it is (no pre-processing of the text)
+pub fn split_string(string: &Vec<char>) -> (r: Result<Vec<Vec<char>>, VErr>)
+    ensures
+        match finish(run_from(init(), string@, true)) {{
+            Some(out) => r is Ok && deep(r->Ok_0@) == out,
+            None => r is Err,
+        }}
+{{
+{render(t_entry, 1)}
 }}
 
 //@ OBL C04.writer.quote
@@ -311,6 +326,7 @@ fn main() {{}}
     obls = [
         Obl("C04.lemmas", ["C04", "C18"], desc="helper lemmas: two str::replace calls (backslash, then quote) equal the spec escaping; record payload after the first space round-trips"),
         Obl("C04.reader.conforms", ["C04", "C18", "C19"], fn="split_string_v2", desc="split_string_v2 returns exactly finish(run_from(init, input)) of the codec state machine, Err exactly when the machine errs or ends inside quotes; all strings"),
+        Obl("C04.reader.entry", ["C04", "C18", "C19"], fn="split_string", desc="split_string (what the loader and the transpiler call) is the multi-target decoder applied to the text as it is"),
         Obl("C04.writer.quote", ["C04", "C18"], fn="fix_arg_if_needed", desc="fix_arg_if_needed wraps its argument in double quotes and nothing else"),
         Obl("C04.writer.conforms", ["C04"], fn="repr_instruction", desc="CompiledItem::repr (binary form) writes [opcode] ++ enc_args(arguments) ++ [NUL] where enc_arg escapes backslash and quote and wraps in quotes after one space; all argument vectors"),
         Obl("C04.record.no-raw-nul", ["C04", "C18"], fn="c04_record_no_raw_nul", desc="lemma: the encoded arguments of a record contain no NUL byte, whatever characters the arguments contain (records are cut at NUL)"),
